@@ -39,6 +39,7 @@ HAZARDS = {
     'seq_offset2d': 'rank-2 dummy associated with an element that is not the first of its column',
     # shape
     'shape_star_deferred': 'deferred-shape (allocatable component) actual for an assumed-size dummy',
+    'shape_star_literal_index': 'array section with a literal subscript as actual for an assumed-size dummy',
     'shape_lbound': 'caller array with lower bound 0 passed whole to assumed-shape dummy',
     'shape_section': 'same-rank array section passed to assumed-shape dummy that uses SIZE',
     'shape_two_callers': 'two call sites with different extents',
@@ -544,9 +545,11 @@ class SigGen:
             c1 = [o for o in objs if o.kind == 'real' and o.rank == 1 and o.ext == ('n',) and (o.writable or not wr)]
             c2 = [o for o in objs if o.kind == 'real' and o.rank == 2 and (o.writable or not wr)]
             if a.decl == 'star' and f['mode'] == 'shape':
-                # deferred-shape actual for an assumed-size dummy: hazard shape_star_deferred only
+                # ArgumentArrayShapeAnalysis fails on deferred-shape actuals and on actuals with a literal subscript
+                # for an assumed-size dummy (hazards shape_star_deferred / shape_star_literal_index): whole arrays
+                # of explicit shape only
                 c1 = [o for o in c1 if not o.alloc and not o.noseq and not o.star]
-                c2 = [o for o in c2 if not o.alloc and not o.noseq]
+                c2 = []
             opts = []
             for o in c1:
                 if o.star:
@@ -568,10 +571,18 @@ class SigGen:
                 opts.append((f'{o.text}(:, {jj})', o.path, wr, 'section'))
                 if seq_ok and a.decl in ('explicit', 'star', 'lb0', 'len') and not o.noseq:
                     opts += [(f'{o.text}({lo}, {jj})', o.path, wr, 'seq')] * 2
+            if seq_ok and a.decl in ('explicit', 'star', 'lb0', 'len'):
+                for o in objs:
+                    if o.text == 'lx':
+                        opts += [(f'lx({rng.choice([2, 3])})', o.path, wr, 'seqoff')] * 2
+                    if o.text == 'lx2':
+                        opts += [(f'lx2(2, {rng.choice(["1", "m"])})', o.path, wr, 'seqoff')] * 2
             if not opts:
                 return None
             t = rng.choice(opts)
-            if t[3] == 'seq':
+            if t[3] == 'seqoff':
+                self.features.add('scalar_element_actual_offset')
+            if t[3] in ('seq', 'seqoff'):
                 self.features.add('scalar_element_actual')
             if t[3] == 'section':
                 self.features.add('section_actual')
@@ -715,7 +726,7 @@ class SigGen:
                 L.append('end do')
             elif kind == 'real' and rank == 2:
                 L.append('do j = 1, m')
-                L.append(f'  do i = {lb}, {"n-1" if lb == 0 else "n"}')
+                L.append(f'  do i = {lb}, {"n-1" if lb == 0 else ext[0]}')
                 L.append(f'    {name}(i, j) = 0.0625_rk*real(mod(i*j + i + 2, 5), kind={RK}) - 0.125_rk')
                 L.append('  end do')
                 L.append('end do')
@@ -729,6 +740,10 @@ class SigGen:
             r.locals_.append(('l1', 'real', 1, ('n',), 0 if (f['lb0_dummies'] and rng.random() < 0.3 and f['mode'] != 'shape') else 1))
         if rng.random() < 0.3 and f['mode'] in ('seq', 'shape'):
             r.locals_.append(('l2', 'real', 2, ('n', 'm'), 1))
+        if f['seq_actuals'] and rng.random() < 0.7:
+            # longer locals: sources of scalar-element actuals that do not start at the first element
+            r.locals_.append(('lx', 'real', 1, ('n + 2',), 1))
+            r.locals_.append(('lx2', 'real', 2, ('n + 1', 'm'), 1))
         objs = self.scope_objs(r)
         body = list(self.init_lines(r))
         nst = rng.randint(2, f['max_stmts'])
@@ -960,6 +975,7 @@ class SigGen:
                                                   'real(kind=rk), intent(in) :: q2(0:nn-1)'],
                                 ['do i = 1, nn', '  s = 0.5_rk*s + 0.25_rk*q1(i)*q2(i - 1)', 'end do']),
         }
+        head['shape_star_literal_index'] = head['shape_star_deferred']
         for k in ('shape_lbound', 'shape_section', 'shape_two_callers', 'shape_member_dim'):
             head[k] = ('q, s', ['real(kind=rk), intent(in) :: q(:)'],
                        ['do i = 1, size(q)', '  s = 0.5_rk*s + 0.25_rk*q(i)*real(i, kind=rk)', 'end do'])
@@ -975,6 +991,7 @@ class SigGen:
                               '      hz3(i, j, k) = 0.0625_rk*real(mod(i*i + 3*j + 5*k, 11), kind=rk)', '    end do', '  end do',
                               'end do', 'call hzk(n - 1, m, hz3(2, 1, 1), ls2)']),
             'shape_star_deferred': ([], ['call hzk(t3%a, n, ls2)']),
+            'shape_star_literal_index': ([], ['call hzk(l2(:, 1), n, ls2)']),
             'shape_star_deferred': 'deferred-shape (allocatable component) actual for an assumed-size dummy',
     'shape_lbound': (['real(kind=rk) :: hz0(0:n-1)'],
                              ['do i = 0, n - 1', '  hz0(i) = 0.0625_rk*real(mod(i*i + 5, 7), kind=rk)', 'end do',
@@ -1041,9 +1058,11 @@ class SigGen:
                     a.intent = 'in'
             k.is_function = True
             k.level = max(k.level, 2) if nk > 1 else 1
-        if f['split_files'] and nk >= 2:
-            for k in kernels[nk // 2:]:
-                k.module = 'kmod2'
+        if f['split_files'] and any(k.level > 1 for k in kernels):
+            # by level, so that the module dependency graph stays acyclic
+            for k in kernels:
+                if k.level > 1:
+                    k.module = 'kmod2'
             self.features.add('split_kernel_modules')
         # bodies, leaves first so that children exist
         for k in reversed(kernels):
@@ -1158,6 +1177,9 @@ class SigGen:
                        ('l1', 'real', 1, ('n',), 1), ('l2', 'real', 2, ('n', 'm'), 1), ('jl', 'int', 0, (), 1)]
         if f['lb0_dummies'] and f['mode'] != 'shape':
             drv.locals_.append(('l0', 'real', 1, ('n',), 0))
+        if f['seq_actuals']:
+            drv.locals_.append(('lx', 'real', 1, ('n + 2',), 1))
+            drv.locals_.append(('lx2', 'real', 2, ('n + 1', 'm'), 1))
         objs = self.scope_objs(drv)
         objs = [o for o in objs if o.path[0] != 'res']
         body = ['res(:) = 0.0_rk', 'ls2 = 0.25_rk', 'jl = 2'] + self.init_lines(drv)
@@ -1188,11 +1210,15 @@ class SigGen:
         body += ['res(1) = ls1', 'res(2) = ls2', 'res(3) = l1(1) + l1(n)', 'res(4) = l2(1, 1) + l2(n, m)']
         if any(l[0] == 'l0' for l in drv.locals_):
             body += ['res(5) = l0(0) + l0(n-1)']
+        if any(l[0] == 'lx' for l in drv.locals_):
+            body += ['res(6) = sum(lx)', 'res(7) = sum(lx2)']
         drv.lines = body
 
     def main_text(self):
+        """main program: data set-up and printing go through one contained routine per derived type (keeps it small)"""
+        order = ['leaf'] + (['mid'] if 'mid' in self.types else []) + ['top']
         L = ['program main', '  use tmod', '  use dmod, only: driver', '  implicit none',
-             '  integer :: n, m, seed, i, j, k',
+             '  integer :: n, m, seed, i, j',
              '  type(top_t) :: t, t2, t3', '  type(plain_t) :: p',
              f'  real(kind={RK}), allocatable :: x(:), x2(:), y(:, :)', '  integer, allocatable :: ix(:)',
              f'  real(kind={RK}) :: res({self.nres})',
@@ -1203,30 +1229,40 @@ class SigGen:
              '  do i = 1, n', '    x(i) = fv(i, 1)', '    x2(i) = fv(i, 2)', '    ix(i) = 1 + mod(i*3 + seed, n)',
              '    do j = 1, m', '      y(i, j) = fv(i + 3*j, 3)', '    end do', '  end do',
              '  do j = 1, 96', '    do i = 1, n', '      pool(i, j) = fv(i + j, 9)', '    end do', '  end do',
-             '  p%k = 1 + mod(seed, 3)', '  p%s = fv(1, 4)', '  p%f = (/ fv(1, 5), fv(2, 5), fv(3, 5) /)']
-        for var, salt in (('t', 10), ('t2', 40), ('t3', 70)):
-            L += self.fill_lines(var, self.types['top'], salt)
-        L += ['  call driver(n, m, t, t2, t3, p, x, x2, y, ix, res)',
-              "  print *, 'res', res", "  print *, 'x', x", "  print *, 'y', y", "  print *, 'p', p%k, p%s, p%f"]
-        L += self.print_lines('t', self.types['top'])
-        L += self.print_lines('t2', self.types['top'])
-        L += ['contains', '  function fv(q, salt) result(v)', '    integer, intent(in) :: q, salt',
-              f'    real(kind={RK}) :: v',
-              f'    v = real(mod(q*q*7 + seed*13 + q*salt*3 + salt, 23), kind={RK})/16.0_rk - 0.6875_rk',
-              '  end function fv', 'end program main']
+             '  p%k = 1 + mod(seed, 3)', '  p%s = fv(1, 4)', '  p%f = (/ fv(1, 5), fv(2, 5), fv(3, 5) /)',
+             '  call fill_top_t(t, 10)', '  call fill_top_t(t2, 40)', '  call fill_top_t(t3, 70)',
+             '  call driver(n, m, t, t2, t3, p, x, x2, y, ix, res)',
+             "  print *, 'res', res", "  print *, 'x', x", "  print *, 'y', y", "  print *, 'p', p%k, p%s, p%f",
+             "  call print_top_t(t, 't')", "  call print_top_t(t2, 't2')",
+             'contains', '  function fv(q, salt) result(v)', '    integer, intent(in) :: q, salt',
+             f'    real(kind={RK}) :: v',
+             f'    v = real(mod(q*q*7 + seed*13 + q*salt*3 + salt, 23), kind={RK})/16.0_rk - 0.6875_rk',
+             '  end function fv']
+        for k in order:
+            ty = self.types[k]
+            L += [f'  subroutine fill_{ty.name}(o, salt)', f'    type({ty.name}), intent(inout) :: o',
+                  '    integer, intent(in) :: salt', '    integer :: i, j, k']
+            L += self.fill_lines('o', ty)
+            L += [f'  end subroutine fill_{ty.name}',
+                  f'  subroutine print_{ty.name}(o, tag)', f'    type({ty.name}), intent(in) :: o',
+                  '    character(len=*), intent(in) :: tag', '    integer :: k', '    character(len=1) :: ck']
+            L += self.print_lines('o', ty)
+            L += [f'  end subroutine print_{ty.name}']
+        L += ['end program main']
         return '\n'.join(L) + '\n'
 
-    def fill_lines(self, text, ty, salt, ind='  '):
+    def fill_lines(self, text, ty, ind='    '):
         L = []
         for q, mb in enumerate(ty.members):
             t = f'{text}%{mb.name}'
-            s = salt + q
+            s = f'salt + {q}'
             if mb.kind == 'dt':
                 if mb.rank == 0:
-                    L += self.fill_lines(t, mb.ty, salt + 3 * (q + 1), ind)
+                    L.append(f'{ind}call fill_{mb.ty.name}({t}, salt + {3 * (q + 1)})')
                 else:
-                    for k in range(1, mb.ext[0] + 1):
-                        L += self.fill_lines(f'{t}({k})', mb.ty, salt + 5 * (q + 1) + k, ind)
+                    L.append(f'{ind}do k = 1, {mb.ext[0]}')
+                    L.append(f'{ind}  call fill_{mb.ty.name}({t}(k), salt + {5 * (q + 1)} + k)')
+                    L.append(f'{ind}end do')
             elif mb.kind == 'int' and mb.rank == 0:
                 val = {'n': 'n', 'm': 'm', 'ni': 'n'}.get(mb.name, '2')
                 L.append(f'{ind}{t} = {val}')
@@ -1264,16 +1300,18 @@ class SigGen:
                 L.append(f'{ind}end do')
         return L
 
-    def print_lines(self, text, ty):
+    def print_lines(self, text, ty, ind='    '):
         L = []
         for mb in ty.members:
             t = f'{text}%{mb.name}'
             if mb.kind == 'dt':
                 if mb.rank == 0:
-                    L += self.print_lines(t, mb.ty)
+                    L.append(f"{ind}call print_{mb.ty.name}({t}, tag // '%{mb.name}')")
                 else:
-                    for k in range(1, mb.ext[0] + 1):
-                        L += self.print_lines(f'{t}({k})', mb.ty)
+                    L.append(f'{ind}do k = 1, {mb.ext[0]}')
+                    L.append(f"{ind}  write(ck, '(i1)') k")
+                    L.append(f"{ind}  call print_{mb.ty.name}({t}(k), tag // '%{mb.name}' // ck)")
+                    L.append(f'{ind}end do')
             else:
-                L.append(f"  print *, '{t}', {t}")
+                L.append(f"{ind}print *, tag // '%{mb.name}', {t}")
         return L
